@@ -131,6 +131,7 @@ class SupervisedTimeSeriesForest(ForestClassifier, BaseClassifier):
         cls, class_counts = np.unique(y, return_counts=True)
         self.n_classes = class_counts.shape[0]
         self.classes_ = class_distribution(np.asarray(y).reshape(-1, 1))[0][0]
+        self.class_dictionary_ = {cls: i for i, cls in enumerate(self.classes_)}
 
         self.intervals_ = [[[] for _ in range(3)] for _ in range(self.n_estimators)]
 
@@ -400,7 +401,15 @@ class SupervisedTimeSeriesForest(ForestClassifier, BaseClassifier):
             axis=1,
         )
 
-        return estimator.predict_proba(transformed_x)
+        probas = estimator.predict_proba(transformed_x)
+        if probas.shape[1] != self.n_classes:
+            # the bag this tree was fitted on did not contain every class:
+            # put its columns where the ensemble's classes_ expect them
+            aligned = np.zeros((probas.shape[0], self.n_classes))
+            for i, cls in enumerate(estimator.classes_):
+                aligned[:, self.class_dictionary_[cls]] = probas[:, i]
+            probas = aligned
+        return probas
 
 
 def fisher_score(X, y, classes=None, class_counts=None):
